@@ -384,7 +384,7 @@ pub const WALL: Duration = Duration::from_secs(20);
 
 async fn run_tcp(case: &TcpCase, obs: &mut Obs) -> Result<(), String> {
 	use tokio::net::TcpStream;
-	let ctx = std::sync::Arc::new(HCtx { log: Default::default(), gates: Gates::default(), actors: Default::default(), guard_seen: Default::default() });
+	let ctx = std::sync::Arc::new(HCtx { log: Default::default(), gates: Gates::default(), actors: Default::default(), guard_seen: Default::default(), sub_ids: Default::default() });
 	let module = build_module(ctx.clone());
 	let server = jsonrpsee_server::Server::builder().set_config(server_config(&Cfg::default(), false)).build("127.0.0.1:0").await.map_err(|e| format!("INCONCLUSIVE bind: {e}"))?;
 	let addr = server.local_addr().map_err(|e| format!("INCONCLUSIVE addr: {e}"))?;
